@@ -235,6 +235,9 @@ Definition spend_grant (W : world) (c : N) (kind : N) (lim : option Z) (amt : Z)
 (** native MsgDelegate from [who] *)
 Definition native_delegate (W : world) (who : N) (amt : Z) : world * outcome :=
   if amt <=? 0 then (W, Fail) else
+  (* haqq's staking message server looks the delegator's account up first (vesting check): a contract
+     deleted earlier in the transaction has none, and the message fails before any hook runs *)
+  if negb (bool_decide (who ∈ wexists W)) then (W, Fail) else
   let '(W1, oc, _) := if 0 <? zg (deleg W) who then payout W who else (W, Ok, 0) in
   match oc with
   | Ok =>
